@@ -221,3 +221,28 @@ class TO_BOOL:
     returns = {"conforms": "isinst(result, bool)"}
     tags = {"conforms": ["C01"], "no_cast_stays_in_its_group": ["C12"], "no_loss_only_unambiguous": ["C12"], "same": ["C12", "C01"],
             "only_raises": ["C04"]}
+
+
+# ------------------------------------------------------------------------------------ C12 subset clause (self-composition)
+
+_SETTINGS = {"no_explicit_cast+no_data_loss": dict(no_explicit_cast=True, no_data_loss=True),
+             "no_explicit_cast": dict(no_explicit_cast=True, no_data_loss=False),
+             "no_data_loss": dict(no_explicit_cast=False, no_data_loss=True)}
+
+
+def _selfcomp(qualname, cases, doc):
+    @contract(T, qualname, props=["C12"])
+    class _:
+        __doc__ = doc
+        locals()["cases"] = cases
+        selfcomp = _SETTINGS
+        only_raises = ["Exception"]
+    _.key = (T, qualname + "#subset")
+    return _
+
+
+_selfcomp("TypeTransformer.to_null", {"none": dict(self=TR(), data=NONE), "str": dict(self=TR(), data=STR), "int": dict(self=TR(), data=INT)},
+          "C12 subset clause for to_null: whatever converts under the preferences converts, to an equal value of the same type, without them")
+_selfcomp("TypeTransformer.to_bool", {"bool": dict(self=TR(), data=BOOL), "int": dict(self=TR(), data=INT), "str": dict(self=TR(), data=STR),
+                                      "none": dict(self=TR(), data=NONE)},
+          "C12 subset clause for to_bool")
